@@ -136,7 +136,7 @@ func VH_C09_errorpaths() {
 		Item
 		Z int64
 	}
-	switch vChoice("entry", 16) {
+	switch vChoice("entry", 22) {
 	case 0:
 		vLockCheck("C09.err.Search.bad_operator", db, func() { db.Search(&vRich{}, "K", "??", int64(1)) })
 	case 1:
@@ -195,6 +195,40 @@ func VH_C09_errorpaths() {
 		vLockCheck("C09.err.AssignIndex.unindexed", db, func() {
 			var t []string
 			db.AssignIndex(&vRich{}, "P", &t)
+		})
+	// calls that PANIC on a mis-typed target (documented misuse): a caller that
+	// recovers (an HTTP handler, a worker pool) keeps a usable handle
+	case 16:
+		vLockCheck("C09.panic.AssignAll.not_a_pointer", db, func() {
+			vCatch(func() { db.AssignAll(&vRich{}, []*vRich{}) })
+		})
+	case 17:
+		vLockCheck("C09.panic.AssignAll.wrong_element", db, func() {
+			var t []*otherT
+			vCatch(func() { db.AssignAll(&vRich{}, &t) })
+		})
+	case 18:
+		vLockCheck("C09.panic.AssignIndex.wrong_type", db, func() {
+			var t []string
+			vCatch(func() { db.AssignIndex(&vRich{}, "K", &t) })
+			vCatch(func() { db.AssignIndex(&vRich{}, "K", t) })
+		})
+	case 19:
+		vLockCheck("C09.panic.Search.Assign", db, func() {
+			var t []*otherT
+			vCatch(func() { db.Search(&vRich{}, "K", ">=", int64(0)).Assign(&t) })
+			vCatch(func() { db.Search(&vRich{}, "K", ">=", int64(0)).Assign(t) })
+		})
+	case 20:
+		vLockCheck("C09.panic.Search.AssignOne", db, func() {
+			var t *otherT
+			vCatch(func() { db.Search(&vRich{}, "K", ">=", int64(0)).AssignOne(&t) })
+			vCatch(func() { db.Search(&vRich{}, "K", ">=", int64(0)).AssignOne(t) })
+		})
+	case 21:
+		vLockCheck("C09.panic.AssignUnique", db, func() {
+			var t *otherT
+			vCatch(func() { db.Search(&vRich{}, "K", "=", a.K).AssignUnique(&t) })
 		})
 	}
 }
